@@ -35,7 +35,7 @@ OPT_DOMAINS = [
     ('version', [None, 'M1', 'M2', 'M3', 'M4', 1, 2, 7, 10, 27, 40]),
     ('mode', [None, 'numeric', 'alphanumeric', 'byte', 'kanji', 'hanzi']),
     ('mask', [None, 0, 1, 2, 3, 4, 5, 6, 7]),
-    ('encoding', [None, 'utf-8', 'latin1', 'shift_jis', 'cp1252', 'utf-16', 'gb2312']),
+    ('encoding', [None, 'utf-8', 'latin1', 'shift_jis', 'cp1252', 'utf-16', 'gb2312', 'iso-8859-1']),
     ('eci', [False, True]),
     ('micro', [None, True, False]),
     ('boost_error', [True, False]),
